@@ -44,7 +44,7 @@ Matches(e, a, old, ok) ==
 
 IsStepEvent(e) == e.ev \in {"acc", "zero", "unmount"} \/ (e.ev = "ret" /\ e.op.k \in {"fill", "verify", "write"} /\ e.res.k = "ok")
 
-Init0 == Init /\ l = 1 /\ on = FALSE
+Init0 == Init /\ l = 1 /\ on = FALSE /\ TLCSet(7, {})
 
 Reset ==
   /\ Rec[l].ev = "reset"
@@ -70,7 +70,8 @@ Tracked ==
               old == Read(a.at)
               ok == IF a.kind \in {"cas", "casw"} THEN old = a.exp ELSE TRUE
           IN IF Matches(e, a, old, ok)
-             THEN Step(t) /\ on' = on
+             \* (register 7: the micro-op labels the real code executed, reported at the end: non-vacuity of the binding)
+             THEN Step(t) /\ on' = on /\ TLCSet(7, TLCGet(7) \cup {b.pc})
              ELSE Drift(t, b.pc) /\ on' = FALSE /\ UNCHANGED vars
   /\ l' = l + 1
 
@@ -95,6 +96,6 @@ TNext == l <= Len(Rec) /\ (Reset \/ Tracked \/ RetAlloc \/ Untracked)
 TSpec == Init0 /\ [][TNext]_tvars
 
 Consumed == TLCGet("stats").diameter - 1 = Len(Rec)
-Post == IF Consumed THEN PrintT(<<"TRACE-CONSUMED", Len(Rec)>>)
+Post == IF Consumed THEN PrintT(<<"LABELS", TLCGet(7)>>) /\ PrintT(<<"TRACE-CONSUMED", Len(Rec)>>)
         ELSE PrintT(<<"TRACE-STUCK", TLCGet("stats").diameter, Len(Rec)>>) /\ FALSE
 =============================================================================
